@@ -71,12 +71,37 @@ class PathEnd(Exception):
     """Current path is infeasible."""
 
 
+class CutPoint(Exception):
+    """raised by a loop hook to end the exploration of a unit at a cut point (payload for the unit's thunk)"""
+
+    def __init__(self, payload=None, eng=None):
+        Exception.__init__(self)
+        self.payload = payload
+        # enclosing merge regions restore the path condition while the exception propagates: keep the cut point's
+        self.pc = list(eng.path.pc) if eng is not None else None
+        self.unpred = eng.path.unpred if eng is not None else None
+
+    def reinstate(self, eng):
+        if self.pc is not None:
+            eng.path.pc = list(self.pc)
+            eng.path.unpred = self.unpred
+
+
 class _Unbound:
     def __repr__(self):
         return 'UNBOUND'
 
 
 UNBOUND = _Unbound()
+
+
+class Maybe:
+    """a local that is bound only under `cond` (merged from arms of which some did not assign it)"""
+    __slots__ = ('cond', 'value')
+
+    def __init__(self, cond, value):
+        self.cond = cond          # z3 Bool: the variable is bound
+        self.value = value
 
 
 class BinStr:
@@ -210,6 +235,9 @@ class Engine:
         self.pending = []
         self.undecided_branches = 0
         self.writes = 0
+        self.no_merge_nodes = set()
+        self._merge_node = None
+        self.loop_hooks = {}                     # (function, loop ordinal) -> hook(eng, stmt, env, globals) -> handled?
         sym.PROVER[0] = self.prove
         sym.HOST_CHECK[0] = self.host_check
 
@@ -472,12 +500,14 @@ class Engine:
         ob = self.oblige(kind, label, z3.And(*[c for _, c in conds]) if conds else z3.BoolVal(True), detail)
         if ob.status == 'undecided' and len(conds) > 1:
             # split: decide every conjunct on its own
-            self.obligations.remove(ob)
+            if ob in self.obligations:
+                self.obligations.remove(ob)
             worst = None
             for n, c in conds:
                 o2 = self.oblige(kind, label, c, detail, timeout_ms=self.slow_timeout_ms)
                 if o2.status == 'proved':
-                    self.obligations.remove(o2)
+                    if o2 in self.obligations:
+                        self.obligations.remove(o2)
                     continue
                 if o2.status == 'failed':
                     o2.detail = 'violated: ' + n
@@ -665,6 +695,8 @@ class Engine:
         mergeable = self._mergeable(snap, normals)
         if not mergeable:
             self.stats['merge_fallbacks'] += 1
+            if tok is None and getattr(self, '_merge_node', None) is not None:
+                self.no_merge_nodes.add(self._merge_node)       # heuristic: do not retry merging this statement
             if tok is None:
                 self.pending = [p for p in self.pending
                                 if not (len(p) > self.pos and isinstance(p[self.pos], tuple) and p[self.pos][0] == 'X'
@@ -685,8 +717,9 @@ class Engine:
         v0 = vs[0]
         if all(v is v0 for v in vs):
             return True
-        if any(v is UNBOUND for v in vs):
-            return False
+        if any(v is UNBOUND or isinstance(v, Maybe) for v in vs):
+            # bound in some outcomes only: mergeable into a Maybe when the bound values are integers
+            return all(v is UNBOUND or is_intlike(v) or (isinstance(v, Maybe) and is_intlike(v.value)) for v in vs)
         if all(is_intlike(v) for v in vs):
             return True
         if all(isinstance(v, tuple) for v in vs) and len(set(len(v) for v in vs)) == 1:
@@ -738,6 +771,19 @@ class Engine:
         v0 = vs[0]
         if all(v is v0 for v in vs):
             return v0
+        if any(v is UNBOUND or isinstance(v, Maybe) for v in vs):
+            bound = []
+            val = None
+            for c, v in zip(conds, vs):
+                if v is UNBOUND:
+                    continue
+                if isinstance(v, Maybe):
+                    bc, bv = z3.And(c, v.cond), v.value
+                else:
+                    bc, bv = c, v
+                bound.append(bc)
+                val = bv if val is None else ite(SymBool(bc), bv, val)
+            return Maybe(z3.simplify(z3.Or(*bound)), val)
         if isinstance(v0, tuple):
             return tuple(self._mergevals(conds, [v[i] for v in vs]) for i in range(len(v0)))
         if not all(is_intlike(v) for v in vs):
@@ -1061,10 +1107,34 @@ class Engine:
             return self.block(s.body if self.decide(cb) else s.orelse, env, g)
         if not self.merge_enabled or _has_jump(s):
             return plain()
+        if id(s) in self.no_merge_nodes:
+            tok = self.prefix[self.pos] if self.pos < len(self.prefix) else None
+            if tok is None or tok is True or tok is False:
+                return plain()
+            if tok == 'P':
+                self.pos += 1
+                return plain()
         arms = [(cb, lambda: self.block(s.body, env, g)), (z3.Not(cb), lambda: self.block(s.orelse, env, g))]
+        self._merge_node = id(s)
         return self.merge_region(arms, env, plain)
 
+    def loop_ordinal(self, fn, s):
+        """index of the loop statement `s` among the for/while statements of fn's body (source order)"""
+        node, _ = func_ast(fn)
+        k = 0
+        for n in ast.walk(node):
+            if isinstance(n, (ast.For, ast.While)):
+                if n is s:
+                    return k
+                k += 1
+        return None
+
     def for_stmt(self, s, env, g):
+        if self.loop_hooks:
+            fn = env.get('__func__')
+            hook = self.loop_hooks.get((fn, self.loop_ordinal(fn, s))) if fn is not None else None
+            if hook is not None and hook(self, s, env, g):
+                return
         it = self.ev(s.iter, env, g)
         broke = False
         for x in self.iterate(it):
@@ -1462,6 +1532,10 @@ class Engine:
             return e.value
         if t is ast.Name:
             v = env.get(e.id, UNBOUND)
+            if isinstance(v, Maybe):
+                self.host_check(v.cond, UnboundLocalError, "local variable '%s' referenced before assignment" % e.id)
+                env[e.id] = v.value
+                return v.value
             if v is not UNBOUND:
                 return v
             if e.id in env.get('__locals__', ()):
